@@ -155,6 +155,10 @@ func runC02(env *core.Env) {
 		}
 		run(name, store, bound, a.Mk(f, 0), b.Mk(f, 1))
 	}
+	// creation with a follow-up in the other two input modes (their own branches in the code) against a claimer
+	run("new-task-bodystdin{claim}||claim/S_A", f.SA, 2, core.R("", "--json", "new", "task", "--title", "NB0", "--claim", "creator0", "--body-stdin").In("body"), claimReq("a1"))
+	run("new-task-flags{claim}||claim/S_A", f.SA, 2, core.R("", "--json", "new", "task", "--title", "NF0", "--claim", "creator0"), claimReq("a1"))
+	run("new-task-bodystdin{state}||prune/S_A", f.SA, 2, core.R("", "--json", "new", "task", "--title", "ND0", "--state", "done", "--body-stdin").In("body"), core.R("", "--json", "prune", "--yes"))
 	// dependency-sensitive pairs on S_dep and triples over the hottest commands
 	run("sequence-rm||claim/S_dep", f.SDep, 2, core.R("", "--json", "sequence", "rm", f.T1, f.T2), claimReq("a1"))
 	run("prune||reopen||claim/S_A", f.SA, 1, core.R("", "--json", "prune", "--yes"), core.R("", "--json", "set", f.T4).In(`{"state":"todo"}`), claimReq("a1"))
